@@ -477,4 +477,146 @@ theorem add_spec (c : HCfg) (t : HashTable) (key : Key) (v : Nat) (m : Mem) (h :
     · exact Or.inr h
 
 
+
+theorem flatten_replicate_nil (n : Nat) : (List.replicate n ([] : List Entry)).flatten = [] := by simp
+
+theorem bucket_replicate (n j : Nat) :
+    (List.replicate n ([] : List Entry)).getD j [] = [] := by
+  simp only [List.getD_eq_getElem?_getD, List.getElem?_replicate]; split <;> rfl
+
+/-- an empty table of capacity `2^k` satisfies the invariant -/
+theorem inv_empty (c : HCfg) (cap : Nat) (hc : ∃ k, k < 32 ∧ cap = 2 ^ k) :
+    ({ capacity := cap, size := 0, threshold := c.thr cap, buckets := List.replicate cap [] } : HashTable).Inv c := by
+  refine ⟨hc, by simp, by simp, ?_, by simp, rfl⟩
+  intro j _ e he
+  unfold bucket at he; simp only at he
+  rw [bucket_replicate] at he; cases he
+
+/-- `cc_hashtable_new_conf`: either refused with nothing allocated, or an empty table satisfying the
+invariant with capacity `round_pow_two(initial_capacity)` that owns two blocks -/
+theorem new_spec (c : HCfg) (cap : Nat) (m : Mem) :
+    ((HashTable.new c cap m).1 = .ok ∨ (HashTable.new c cap m).1 = .errAlloc) ∧
+    ((HashTable.new c cap m).1 ≠ .ok → (HashTable.new c cap m).2.1 = none ∧ (HashTable.new c cap m).2.2.live = m.live) ∧
+    (∀ t, (HashTable.new c cap m).2.1 = some t → (HashTable.new c cap m).1 = .ok ∧ t.Inv c ∧ t.abs = [] ∧ t.size = 0 ∧
+        t.capacity = roundPowTwo cap ∧ (HashTable.new c cap m).2.2.live = m.live + 2) ∧
+    (HashTable.new c cap m).2.2.fault = m.fault ∧
+    (m.sched = [] → (HashTable.new c cap m).1 = .ok) := by
+  unfold HashTable.new
+  simp only
+  cases h1 : m.alloc.1 with
+  | false =>
+    have e1 := Mem.alloc_fst_false m h1
+    simp only [Bool.not_false, if_true]
+    refine ⟨by simp, fun _ => ⟨by simp, e1.1⟩, by simp, e1.2.1, ?_⟩
+    intro hs; have := (Mem.alloc_nil m hs).1; rw [h1] at this; cases this
+  | true =>
+    have e1 := Mem.alloc_fst_true m h1
+    simp only [Bool.not_true, Bool.false_eq_true, if_false]
+    cases h2 : m.alloc.2.alloc.1 with
+    | false =>
+      have e2 := Mem.alloc_fst_false m.alloc.2 h2
+      have hfr := free_spec m.alloc.2.alloc.2 (by omega)
+      simp only [Bool.not_false, if_true]
+      refine ⟨by simp, fun _ => ⟨by simp, by rw [hfr.1]; omega⟩, by simp, by rw [hfr.2.1, e2.2.1, e1.2.1], ?_⟩
+      intro hs
+      have := (Mem.alloc_nil m.alloc.2 (Mem.alloc_nil m hs).2).1; rw [h2] at this; cases this
+    | true =>
+      have e2 := Mem.alloc_fst_true m.alloc.2 h2
+      simp only [Bool.not_true, Bool.false_eq_true, if_false]
+      refine ⟨by simp, by simp, ?_, by rw [e2.2.1, e1.2.1], by simp⟩
+      intro t ht
+      simp only [Option.some.injEq] at ht
+      subst ht
+      refine ⟨trivial, inv_empty c _ (roundPowTwo_pow2 cap), by simp [abs], rfl, rfl, by omega⟩
+
+theorem subWrap_self (n : Nat) : (n + SIZE_MOD - n % SIZE_MOD) % SIZE_MOD = 0 := by
+  generalize SIZE_MOD = M
+  by_cases hM : M = 0
+  · subst hM; simp
+  have h1 : (n + M - n % M) = (n / M + 1) * M := by
+    have := Nat.div_add_mod n M
+    have := Nat.mod_le n M
+    rw [Nat.add_mul, Nat.one_mul, Nat.mul_comm]; omega
+  rw [h1]; exact Nat.mul_mod_left _ _
+
+theorem removeAll_capacity (t : HashTable) (m : Mem) : (t.removeAll m).1.capacity = t.capacity := by
+  simp [removeAll]
+theorem removeAll_threshold (t : HashTable) (m : Mem) : (t.removeAll m).1.threshold = t.threshold := by
+  simp [removeAll]
+theorem removeAll_buckets (t : HashTable) (m : Mem) :
+    (t.removeAll m).1.buckets = (t.buckets.take t.capacity).map (fun _ => []) ++ t.buckets.drop t.capacity := by
+  simp [removeAll]
+theorem removeAll_size (t : HashTable) (m : Mem) :
+    (t.removeAll m).1.size = (t.size + SIZE_MOD - t.walk.length % SIZE_MOD) % SIZE_MOD := by
+  simp [removeAll]
+theorem removeAll_mem (t : HashTable) (m : Mem) :
+    (t.removeAll m).2 = freeN (m.check (t.capacity ≤ t.buckets.length)) t.walk.length := by
+  simp [removeAll]
+
+/-- `cc_hashtable_remove_all`: empty map, same capacity, every entry block released -/
+theorem removeAll_spec (c : HCfg) (t : HashTable) (m : Mem) (h : t.Inv c) (hl : t.size ≤ m.live) :
+    (t.removeAll m).1.Inv c ∧ (t.removeAll m).1.abs = [] ∧ (t.removeAll m).1.size = 0 ∧
+    (t.removeAll m).1.capacity = t.capacity ∧ (t.removeAll m).1.threshold = t.threshold ∧
+    (t.removeAll m).2.live = m.live - t.size ∧ (t.removeAll m).2.fault = m.fault := by
+  obtain ⟨hcap, hlen, hsize, hok, hnd, hthr⟩ := h
+  have hw := walk_eq t hlen
+  have hchk : decide (t.capacity ≤ t.buckets.length) = true := by simp; omega
+  have hbk : (t.buckets.take t.capacity).map (fun _ => ([] : List Entry)) ++ t.buckets.drop t.capacity = List.replicate t.capacity [] := by
+    rw [List.take_of_length_le (by omega), List.drop_of_length_le (by omega), List.append_nil]
+    rw [← hlen]; exact List.map_const' ..
+  have hsz : (t.size + SIZE_MOD - t.walk.length % SIZE_MOD) % SIZE_MOD = 0 := by
+    rw [hw, ← hsize]; exact subWrap_self t.size
+  have hfr := freeN_spec m t.walk.length (by rw [hw, ← hsize]; exact hl)
+  have e1 := removeAll_capacity t m
+  have e2 := removeAll_threshold t m
+  have e3 := removeAll_buckets t m
+  have e4 := removeAll_size t m
+  have e5 := removeAll_mem t m
+  rw [hbk] at e3; rw [hsz] at e4
+  rw [hchk, Mem.check_true] at e5
+  rw [e5]
+  generalize (t.removeAll m).1 = t' at e1 e2 e3 e4
+  obtain ⟨a, b, c', d⟩ := t'
+  simp only at e1 e2 e3 e4
+  subst e1 e2 e3 e4
+  have hinv := inv_empty c t.capacity hcap
+  rw [← hthr] at hinv
+  refine ⟨hinv, by simp [abs], rfl, rfl, rfl, ?_, hfr.2.1⟩
+  rw [hfr.1, hw, ← hsize]
+
+/-- `cc_hashtable_destroy` releases exactly the blocks the table owns: one per entry, the bucket
+array and the header -/
+theorem destroy_spec (c : HCfg) (t : HashTable) (m : Mem) (h : t.Inv c) (hl : t.size + 2 ≤ m.live) :
+    (t.destroy m).live = m.live - (t.size + 2) ∧ (t.destroy m).fault = m.fault := by
+  obtain ⟨hcap, hlen, hsize, hok, hnd, hthr⟩ := h
+  have hw := walk_eq t hlen
+  have hchk : decide (t.capacity ≤ t.buckets.length) = true := by simp; omega
+  have hfr := freeN_spec m t.walk.length (by rw [hw, ← hsize]; omega)
+  rw [hw, ← hsize] at hfr
+  have f1 := free_spec (freeN m t.size) (by omega)
+  have f2 := free_spec (freeN m t.size).free (by omega)
+  unfold destroy
+  simp only [hchk, Mem.check_true, hw, ← hsize]
+  refine ⟨by omega, by rw [f2.2.1, f1.2.1, hfr.2.1]⟩
+
+/-- `cc_hashtable_contains_key` -/
+theorem containsKey_refines (c : HCfg) (t : HashTable) (key : Key) (m : Mem) (h : t.Inv c) :
+    (t.containsKey c key m).1 = Map.contains t.abs key ∧ (t.containsKey c key m).2 = m := by
+  obtain ⟨h1, h2, h3⟩ := get_refines c t key m h
+  unfold containsKey Map.contains
+  simp only [h2, h3]
+  cases Map.lookup t.abs key <;> simp
+
+/-- `cc_hashtable_foreach_key/value` visit exactly the entries of the map, each once, in walk order -/
+theorem foreach_refines (c : HCfg) (t : HashTable) (m : Mem) (h : t.Inv c) :
+    (t.foreachKey m).1 = Map.keys t.abs ∧ (t.foreachKey m).2 = m ∧
+    (t.foreachValue m).1 = Map.vals t.abs ∧ (t.foreachValue m).2 = m := by
+  obtain ⟨hcap, hlen, hsize, hok, hnd, hthr⟩ := h
+  have hw := walk_eq t hlen
+  have hchk : decide (t.capacity ≤ t.buckets.length) = true := by simp; omega
+  unfold foreachKey foreachValue Map.keys Map.vals abs
+  simp only [hchk, Mem.check_true, hw, List.map_map]
+  exact ⟨rfl, trivial, rfl, trivial⟩
+
+
 end CC.HashTable
